@@ -10,7 +10,11 @@ type Src struct {
 	trace  []point
 	devs   int
 	Budget int
+	stop   bool
 }
+
+// Stop ends the exploration after the current run.
+func (s *Src) Stop() { s.stop = true }
 
 type point struct {
 	choice, arity int
@@ -67,6 +71,9 @@ func Explore(budget int, body func(s *Src)) int {
 		s := &Src{prefix: prefix, Budget: budget}
 		body(s)
 		runs++
+		if s.stop {
+			return runs
+		}
 		if len(s.trace) < len(prefix) {
 			panic(fmt.Sprintf("mc: non-deterministic replay: run ended after %d points, prefix has %d", len(s.trace), len(prefix)))
 		}
